@@ -295,6 +295,7 @@ func c16Conc(c *Ctx, name string, b vsched.Bounds) Sched {
 						Servers:   []config.ServerConfig{{Addr: c16S1, Locations: []string{"l1"}, Cache: "c1", CompressMinLength: "1kb"}},
 					}
 					if extra {
+						p.Caches[0].HitForPass = "4m" // (a changed setting of the cache the requests are using)
 						p.Caches = append(p.Caches, config.CacheConfig{Name: "c2", Size: 10, HitForPass: "1m"})
 						p.Upstreams = append(p.Upstreams, config.UpstreamConfig{Name: "u2", Servers: []config.UpstreamServerConfig{{Addr: origin.URL}}})
 						p.Locations = append(p.Locations, config.LocationConfig{Name: "l2", Upstream: "u2", Hosts: []string{"b.com"}})
